@@ -185,15 +185,15 @@ entry (t, v, c) of the resulting pixel array is the root's entry (root time inde
 where `off` is the composed spatial offset of the placement invariant and the composed time map is read
 off the slabs — i.e. `(run program root).data idx = root.data (map idx)`. The tag on the right is
 written out: it names root array, root time index, root voxel and component. -/
-theorem extract_data_eq (rid : Nat) (cs : CS) (series scalar : Bool) (T C : Nat) (time : Option (List (Option Rat)))
+theorem extract_data_eq (rid : Nat) (cs : CS) (series scalar : Bool) (T : Nat) (C : List Nat) (time : Option (List (Option Rat)))
     (date : List (Option Int)) (root : ImgA) (h : mkRootA rid cs series scalar T C time date = .ok root)
     (hcs : cs.ok) (hT : root.md.time.length = T) (hD : date.length = T)
     (hc : ∀ k : Nat, root.md.time[k]? = some none → date[k]? = some none)
     (steps : List Step) (im : ImgA) (hr : root.runOk steps = some im) :
     ∃ off, Placed root.md im.md off ∧ root.md.runOk steps = some im.md ∧
-      ∀ (t : Nat) (sl : Slab), im.md.slabs[t]? = some sl → ∀ v : List Nat, v.length = cs.dim.toNat → ∀ c : Nat,
+      ∀ (t : Nat) (sl : Slab), im.md.slabs[t]? = some sl → ∀ v : List Nat, v.length = cs.dim.toNat → ∀ c : List Nat,
         im.data t v c = root.data sl.t (List.zipWith (· + ·) v off) c ∧
-        im.data t v c = ⟨rid, if series then sl.t else 0, List.zipWith (· + ·) v off, if scalar then 0 else c⟩ := by
+        im.data t v c = ⟨rid, if series then sl.t else 0, List.zipWith (· + ·) v off, c⟩ := by
   obtain ⟨hm, _⟩ := mkRootA_md rid cs series scalar T C time date root h
   have hP0 := placed_root rid cs series scalar T time date root.md hm hcs hT hD hc
   have hcsEq : root.md.cs = cs := by rw [mkRoot_fields rid cs series scalar T time date root.md hm]
@@ -218,7 +218,7 @@ theorem extract_data_inv (root im im' : ImgA) (off : List Nat) (hP : Placed root
 /-- `append` on arrays (`np.stack` of the time slabs of both images at `axis = space_dim`): slab `t` of the
 result is slab `t` of the receiver, or slab `t − T_a` of the appended image — entry by entry, for scalar and
 vector payloads, single images and series on either side. -/
-theorem append_data_eq (a b s : ImgA) (off : Option Rat) (h : a.append b off = .ok s) (t : Nat) (v : List Nat) (c : Nat)
+theorem append_data_eq (a b s : ImgA) (off : Option Rat) (h : a.append b off = .ok s) (t : Nat) (v : List Nat) (c : List Nat)
     (hv : v.length = a.md.cs.dim.toNat) (ht : t < a.slices.length + b.slices.length) :
     s.data t v c = if t < a.slices.length then a.data t v c else b.data (t - a.slices.length) v c :=
   append_data a b s off h t v c hv ht
@@ -228,11 +228,15 @@ pixel array of image `i`, entry by entry. -/
 theorem stack_slice_data (imgs : List ImgA) (s s' : ImgA) (h : stackA imgs = .ok s) (d : Nat)
     (hs : ∀ o ∈ imgs, o.md.series = false ∧ o.md.slabs.length = 1 ∧ o.md.cs.dim.toNat = d)
     (i : Nat) (o : ImgA) (ho : imgs[i]? = some o) (h' : s.step (.tslice (i : Int)) = .ok s')
-    (t : Nat) (v : List Nat) (hv : v.length = d) (c : Nat) : s'.data t v c = o.data 0 v c := by
+    (t : Nat) (v : List Nat) (hv : v.length = d) (c : List Nat) : s'.data t v c = o.data 0 v c := by
   obtain ⟨j, hj, hd⟩ := tslice_data s s' (i : Int) h'
   have := pyIndex_natCast _ _ _ hj
   subst this
-  rw [hd t v c]
+  have hdim : v.length = s.md.cs.dim.toNat := by
+    cases imgs with
+    | nil => simp at ho
+    | cons a0 rest => rw [stackA_cs a0 rest s h, (hs a0 (by simp)).2.2]; exact hv
+  rw [hd t v c hdim]
   exact stackA_data imgs s h d hs v hv c j o ho
 
 /-! non-vacuity: dated images appended with offset 0 keep their stored times [0, 0] (the date
@@ -262,9 +266,9 @@ example : exRoot.toOption.map (fun r => (r.time, r.date.length)) = some ([some 0
 
 /-! non-vacuity: a vector-valued 2-D series; program sub → tinterval → tslice; entry (·, (1,2), 1) of the
 result is root entry (time 2, voxel (2,2), component 1). -/
-def exRootA : Except Err ImgA := mkRootA 7 exCS true false 3 2 none [some 0, some 10, some 25]
+def exRootA : Except Err ImgA := mkRootA 7 exCS true false 3 [2, 2] none [some 0, some 10, some 25]
 example : ((exRootA.toOption.bind fun r => r.runOk [.sub [(some 1, none), (none, some (-1))], .tinterval (some 1, none), .tslice (-1)]).map
-    fun im => im.data 0 [1, 2] 1) = some ⟨7, 2, [2, 2], 1⟩ := by decide +kernel
+    fun im => im.data 0 [1, 2] [1, 0]) = some ⟨7, 2, [2, 2], [1, 0]⟩ := by decide +kernel
 
 example : ((exRoot.toOption.bind fun r => r.runOff [0, 0] exProg).map fun x => x.2) = some [1, 1] := by decide +kernel
 
